@@ -149,14 +149,30 @@ class Check:
         "Chains": {"C06", "C14", "C15", "C17"},
         "MontProg": {"C08"},
     }
-    ARITH_ALL = {"C01", "C03", "C06", "C07", "C09", "C11", "C12", "C14", "C15"}
+    ARITH_ALL = {"C01", "C02", "C03", "C04", "C05", "C06", "C07", "C09", "C11", "C12", "C14", "C15", "C17", "C18"}
 
     @staticmethod
     def arith_props(name):
         """properties concerned by a translated function / equality theorem, by its name"""
         n = name.lower()
+        if "maptocurve" in n or "map2tocurve" in n or "map_to_curve" in n or "map2_to_curve" in n:
+            return {"C14", "C06"}
         if "osswu" in n:
             return {"C15", "C14", "C06"}
+        if "clearh" in n or "clear_h" in n:
+            return {"C17", "C14", "C06"}
+        if "sgn0" in n or "negateif" in n or "negate_if" in n:
+            return {"C18", "C15", "C14", "C06"}
+        if "sqrt" in n or "legendre" in n:
+            return {"C18", "C15", "C04"}
+        if "cmp" in n:
+            return {"C18", "C04", "C05"}
+        if "insubgroup" in n or "in_subgroup" in n or "correctsubgroup" in n or "correct_subgroup" in n:
+            return {"C07", "C04"}
+        if "getpointfromx" in n or "get_point_from_x" in n:
+            return {"C04", "C18"}
+        if "mulbits" in n or "mul_bits" in n or "mulassign" in n or n in ("aff_mul", "jac_mul"):
+            return {"C02", "C07"}
         if any(k in n for k in ("doublingstep", "doubling_step", "additionstep", "addition_step", "ell")) and "fq" not in n:
             return {"C03", "C11"}
         if "expbyx" in n or "exp_by_x" in n or "finalexp" in n or "final_exp" in n:
